@@ -1,11 +1,13 @@
 #!/bin/sh
-# tools/benign_sweep.sh <dir-with-NN/patch.diff> "<props>"  - to be run with VERIF_REPO pointing at a scratch copy of /repo:
-# applies each behaviour-preserving patch in turn, runs the quick checks, reverts.  Any VIOLATION here is a false alarm.
+# tools/benign_sweep.sh <dir-with-NN/patch.diff> "<props>"  - to be run with VERIF_REPO pointing at a scratch copy of /repo
+# (a git checkout): applies each behaviour-preserving patch in turn, runs the quick checks, restores the copy.
+# Any VIOLATION here is a false alarm.  A patch that no longer applies is reported and skipped (nothing is applied in part).
 dir=$(cd "$1" && pwd); props="$2"
 for d in "$dir"/*/; do
   n=$(basename "$d")
-  if ! (cd "$VERIF_REPO" && patch -p1 -s < "$d/patch.diff"); then echo "benign=$n patch failed"; continue; fi
+  if ! git -C "$VERIF_REPO" apply --check "$d/patch.diff" 2>/dev/null; then echo "benign=$n patch does not apply (stale): skipped"; continue; fi
+  git -C "$VERIF_REPO" apply "$d/patch.diff"
   echo "== benign $n: $(head -1 "$d/README.md")"
   tools/sweep.sh 1 "$props" | sed "s/^/benign=$n /"
-  (cd "$VERIF_REPO" && patch -p1 -R -s < "$d/patch.diff")
+  git -C "$VERIF_REPO" checkout -q -- . && git -C "$VERIF_REPO" clean -fdq
 done
